@@ -45,6 +45,11 @@ func c02Mapping() mapping.IndexMapping {
 		fm.IncludeTermVectors = true
 		dm.AddFieldMappingsAt(f, fm)
 	}
+	// a keyword field without term vectors: its terms can be 1-hit encoded when segments are merged
+	kf := bleve.NewTextFieldMapping()
+	kf.Analyzer = "keyword"
+	kf.IncludeTermVectors = false
+	dm.AddFieldMappingsAt("k0", kf)
 	dm.AddFieldMappingsAt("n0", bleve.NewNumericFieldMapping())
 	dm.AddFieldMappingsAt("b0", bleve.NewBooleanFieldMapping())
 	dm.AddFieldMappingsAt("d0", bleve.NewDateTimeFieldMapping())
@@ -52,6 +57,8 @@ func c02Mapping() mapping.IndexMapping {
 	m.DefaultAnalyzer = "simple"
 	return m
 }
+
+var c02Keys = []string{"kx", "ky", "kz", "kw"}
 
 var c02Base = time.Date(2020, 2, 3, 4, 5, 6, 0, time.UTC)
 
@@ -79,6 +86,12 @@ func genC02Doc(r *Rng, i int) c02Doc {
 		}
 		if !dup {
 			d.nums = append(d.nums, v)
+		}
+	}
+	if r.Chance(40) { // key words: one element each, a term as it stands
+		nk := 1 + r.Intn(2)
+		for k := 0; k < nk; k++ {
+			d.texts["k0"] = append(d.texts["k0"], []string{c02Keys[r.Intn(len(c02Keys))]})
 		}
 	}
 	if r.Chance(60) {
@@ -126,7 +139,7 @@ func (d c02Doc) tokens(iid uint64) string {
 	var sb strings.Builder
 	nt := 0
 	var tb strings.Builder
-	for _, f := range []string{"t0", "t1"} {
+	for _, f := range []string{"t0", "t1", "k0"} {
 		els := d.texts[f]
 		if len(els) == 0 {
 			continue
@@ -610,6 +623,30 @@ func genConjOfTerms(r *Rng, kinds map[string]int) (query.Query, string) {
 	return bleve.NewConjunctionQuery(qs...), fmt.Sprintf("C %d%s", n, sb.String())
 }
 
+// hot shape: a conjunction or disjunction of two or three key-word terms (1-hit encoded in a merged segment)
+func genKeyTerms(r *Rng, kinds map[string]int) (query.Query, string) {
+	n := 2 + r.Intn(2)
+	qs := make([]query.Query, 0, n)
+	var sb strings.Builder
+	for i := 0; i < n; i++ {
+		w := c02Keys[r.Intn(len(c02Keys))]
+		if i < 2 && r.Chance(60) {
+			w = []string{"kx", "ky"}[i]
+		}
+		q := bleve.NewTermQuery(w)
+		q.SetField("k0")
+		qs = append(qs, q)
+		fmt.Fprintf(&sb, " T %s %s", hs("k0"), hs(w))
+	}
+	if r.Chance(65) {
+		kinds["conjunction-of-key-terms"]++
+		return bleve.NewConjunctionQuery(qs...), fmt.Sprintf("C %d%s", n, sb.String())
+	}
+	kinds["disjunction-of-key-terms"]++
+	dq := bleve.NewDisjunctionQuery(qs...)
+	return dq, fmt.Sprintf("D 0 %d%s", n, sb.String())
+}
+
 func genQuery(r *Rng, depth int, ids []string, kinds map[string]int) (query.Query, string) {
 	if depth <= 0 || r.Chance(35) {
 		return genLeaf(r, ids, kinds)
@@ -786,6 +823,13 @@ func buildC02Index(r *Rng, engine string) *c02Index {
 			if i < 2 {
 				v := i == 0
 				d.flag = &v
+			}
+			// and each key word by one document only, two of them together in the first one
+			delete(d.texts, "k0")
+			if i == 0 {
+				d.texts["k0"] = [][]string{{"kx"}, {"ky"}}
+			} else if i == 1 {
+				d.texts["k0"] = [][]string{{"kz"}}
 			}
 		}
 		ci.live[d.id] = d
@@ -993,8 +1037,12 @@ func runC08(t *Trace, r *Rng, tier string, _ []string) {
 	kinds := map[string]int{}
 	advFirst, advPastEnd, advGap := 0, 0, 0
 	for ix := 0; ix < nIdx; ix++ {
-		engine := []string{"scorch", "upsidedown"}[ix%2]
-		ci := buildC02Index(r, engine)
+		cfg := []string{"scorch", "upsidedown", "scorch-disk"}[ix%3]
+		engine := cfg
+		if cfg == "scorch-disk" { // on disk with a force-merged first segment: same id scheme and fuzzy reading as scorch
+			engine = "scorch"
+		}
+		ci := buildC02Index(r, cfg)
 		adv, err := ci.idx.Advanced()
 		must(err)
 		reader, err := adv.Reader()
@@ -1024,9 +1072,13 @@ func runC08(t *Trace, r *Rng, tier string, _ []string) {
 		corpus := cb.String()
 		for qi := 0; qi < nQ; qi++ {
 			q, ftok := genQuery(r, 3, ci.ids, kinds)
-			hotRoot := r.Chance(35)
+			hotRoot := r.Chance(35) || (cfg == "scorch-disk" && r.Chance(30))
+			keyRoot := false
 			if hotRoot {
 				switch x := r.Intn(100); {
+				case cfg == "scorch-disk" && x < 55:
+					q, ftok = genKeyTerms(r, kinds)
+					keyRoot = true
 				case x < 50:
 					q, ftok = genBoolTermsMinShould(r, kinds)
 				case x < 75:
@@ -1054,7 +1106,7 @@ func runC08(t *Trace, r *Rng, tier string, _ []string) {
 				}
 				s, err := q.Searcher(context.Background(), reader, ci.idx.Mapping(), opt)
 				if err != nil {
-					t.Emit("prog-err/"+engine, true, "prog "+corpus+" | "+tok+" |", "ERR")
+					t.Emit("prog-err/"+cfg, true, "prog "+corpus+" | "+tok+" |", "ERR")
 					continue
 				}
 				sctx := &search.SearchContext{DocumentMatchPool: search.NewDocumentMatchPool(s.DocumentMatchPoolSize()+4, 0)}
@@ -1065,7 +1117,7 @@ func runC08(t *Trace, r *Rng, tier string, _ []string) {
 					var dm *search.DocumentMatch
 					// a hot boolean root is mostly entered through Advance into the middle of the id range:
 					// its should and must-not cursors then sit ahead of the candidate
-					firstAdv := hotRoot && c == 0 && r.Chance(70)
+					firstAdv := hotRoot && c == 0 && (r.Chance(70) || keyRoot)
 					if !firstAdv && r.Chance(55) {
 						calls = append(calls, "N")
 						dm, err = guardedCall(func() (*search.DocumentMatch, error) { return s.Next(sctx) })
@@ -1076,6 +1128,10 @@ func runC08(t *Trace, r *Rng, tier string, _ []string) {
 						kind := r.Intn(4)
 						if firstAdv {
 							kind = 2
+						}
+						if keyRoot && c == 0 && r.Chance(60) {
+							kind = 1 // a target just inside the first (merged) segment, past its first documents
+							lo = uint64(1 + r.Intn(4))
 						}
 						switch kind {
 						case 0:
@@ -1100,7 +1156,7 @@ func runC08(t *Trace, r *Rng, tier string, _ []string) {
 						// the call did not return: report it with the program so far and stop the run (the
 						// goroutine cannot be stopped; what has been recorded is the evidence)
 						outs = append(outs, "HANG")
-						t.Emit("prog/"+engine, true, "prog "+corpus+" | "+tok+" | "+strings.Join(calls[:len(outs)], " "), strings.Join(outs, ","))
+						t.Emit("prog/"+cfg, true, "prog "+corpus+" | "+tok+" | "+strings.Join(calls[:len(outs)], " "), strings.Join(outs, ","))
 						t.Note("a searcher call did not return within 10 s; run stopped early")
 						t.Close()
 						os.Exit(0)
@@ -1119,7 +1175,7 @@ func runC08(t *Trace, r *Rng, tier string, _ []string) {
 					sctx.DocumentMatchPool.Put(dm)
 				}
 				_ = s.Close()
-				t.Emit("prog/"+engine, len(outs) > 1, "prog "+corpus+" | "+tok+" | "+strings.Join(calls[:len(outs)], " "), strings.Join(outs, ","))
+				t.Emit("prog/"+cfg, len(outs) > 1, "prog "+corpus+" | "+tok+" | "+strings.Join(calls[:len(outs)], " "), strings.Join(outs, ","))
 			}
 		}
 		reader.Close()
